@@ -57,7 +57,7 @@ def _site(ex):
     return "?"
 
 
-def compile_one(cid, P, cname, fresh_env=False):
+def compile_one(cid, P, cname, fresh_env=False, reuse=False):
     import unified_planning as up
     from unified_planning.plans import ActionInstance
 
@@ -83,8 +83,16 @@ def compile_one(cid, P, cname, fresh_env=False):
     except Exception as ex:
         rec["skip"] = "kind:" + type(ex).__name__
         return rec
+    def _compile():
+        inst = C()
+        if reuse:
+            # "every compiler and every problem": the result of the SECOND compilation through one compiler
+            # instance is the one that is judged (state kept by the instance must not leak into it)
+            inst.compile(problem, ckind)
+        return inst.compile(problem, ckind)
+
     try:
-        res = call_limited(lambda: C().compile(problem, ckind), 40, 8)
+        res = call_limited(_compile, 40, 8)
     except ImplTimeout:
         rec["raised"] = "TIMEOUT"
         return rec
@@ -254,13 +262,16 @@ def require_coverage(recs):
 def worker(job):
     cid, P, cname, fresh = job
     gd = fresh == "goal-directed"
+    reuse = fresh == "reuse"
+    if reuse:
+        fresh = False
     if gd:
         P = goal_directed(P, cid)
         fresh = False
     try:
         if isinstance(cname, (list, tuple)):
             return compile_pipeline(cid, P, list(cname))
-        r = compile_one(cid, P, cname, fresh)
+        r = compile_one(cid, P, cname, fresh, reuse)
         r.setdefault("pipeline", False)
         r["gd"] = gd
         r.setdefault("stage_rejected", False)
